@@ -34,6 +34,19 @@ C02 — the declarative specification `WF : FnDump → Prop`.
                 `replace` indeed does not maintain it).
 7. `typed`      every instruction satisfies the row of its kind in the typing table
                 `TypeRule` (Model.lean).
+8. `operands_complete`  for every instruction, what the method `Operands()` returns is, as a
+                multiset (nil entries included), exactly what the fields of the instruction's
+                struct hold.  Referrer building, renaming during lifting and go/ir's own sanity
+                checker all enumerate operands through `Operands()`; an operand the method
+                forgets is invisible to all of them (and to clauses 5–7, which are stated over
+                `Operands()`), so the two enumerations are dumped independently and compared.
+9. `func_ok`    function-level bookkeeping: `Params` are pairwise distinct Parameters of this
+                function, every Parameter of this function that occurs as a value is listed,
+                and their types are exactly the receiver type (if the signature has one) followed
+                by the parameter types of `Signature`; the same for `FreeVars` (distinct
+                FreeVars of this function, all listed); `Locals` lists pairwise distinct
+                non-heap Allocs of the function's blocks (in naive form an entry may be in no
+                block: only lifting compacts the list).
 -/
 import Verif.C02.Model
 namespace Verif.C02
@@ -124,6 +137,52 @@ def RefsTracked (f : FnDump) : Prop :=
   (∀ x ∈ f.flatL, x.2.2.refs.isSome = x.2.2.ty.isSome) ∧
   (∀ w ∈ f.vals.toList, w.kind.legit = true → w.refs.isSome = w.kind.tracked)
 
+/-- kind of the non-instruction value with id `v` -/
+def vkindOf (f : FnDump) (fl : Array (Nat × Nat × Instr)) (v : Nat) : Option VKind :=
+  if v < fl.size then none else (f.vals[v - fl.size]?).map (·.kind)
+
+/-- clause 9, one list of Parameters / FreeVars: the entries are pairwise distinct values of the
+given kind, and every value of that kind of the dump is listed -/
+def ListedOK (f : FnDump) (fl : Array (Nat × Nat × Instr)) (k : VKind) (l : List Nat) : Prop :=
+  (∀ v ∈ l, vkindOf f fl v = some k) ∧ l.Nodup ∧
+    ∀ x ∈ f.vals.toList.zipIdx, x.1.kind = k → (fl.size + x.2) ∈ l
+
+instance (f : FnDump) (fl : Array (Nat × Nat × Instr)) (k : VKind) (l : List Nat) :
+    Decidable (ListedOK f fl k l) := by unfold ListedOK; infer_instance
+
+/-- an entry of `Function.Locals`: an Alloc of this function with `Heap = false`.  An entry
+that is in no block is tolerated only in naive form: the builder leaves the fused per-iteration
+copy of a Go 1.22 loop variable (`forStmtGo122`: "lift() will remove the unused i_next Alloc")
+and the Allocs of deleted unreachable blocks in `Locals`, and only lifting compacts the list. -/
+def LocalOK (naive : Bool) (fl : Array (Nat × Nat × Instr)) (l : Option Nat) : Prop :=
+  match l with
+  | some k =>
+    match fl[k]? with
+    | some x => x.2.2.kind = .Alloc ∧ x.2.2.a = some 0
+    | none => False
+  | none => naive = true
+
+instance (naive : Bool) (fl : Array (Nat × Nat × Instr)) (l : Option Nat) :
+    Decidable (LocalOK naive fl l) := by
+  unfold LocalOK; split
+  · split <;> infer_instance
+  · infer_instance
+
+/-- clause 9 -/
+structure FuncOK (f : FnDump) : Prop where
+  params : ListedOK f f.flat .param f.params
+  params_typed : f.params.map (valTy f f.flat) = f.sigParams.map some
+  free_vars : ListedOK f f.flat .freevar f.freeVars
+  locals : ∀ l ∈ f.locals, LocalOK f.naive f.flat l
+  locals_distinct : (f.locals.filterMap id).Nodup
+
+instance (f : FnDump) : Decidable (FuncOK f) :=
+  decidable_of_iff
+    (ListedOK f f.flat .param f.params ∧ f.params.map (valTy f f.flat) = f.sigParams.map some ∧
+      ListedOK f f.flat .freevar f.freeVars ∧ (∀ l ∈ f.locals, LocalOK f.naive f.flat l) ∧
+      (f.locals.filterMap id).Nodup)
+    ⟨fun ⟨a, b, c, d, e⟩ => ⟨a, b, c, d, e⟩, fun ⟨a, b, c, d, e⟩ => ⟨a, b, c, d, e⟩⟩
+
 /-- **Well-formed SSA** (the statement of property C02 for one built function). -/
 structure WF (f : FnDump) : Prop where
   shape : ShapeOK f
@@ -135,5 +194,7 @@ structure WF (f : FnDump) : Prop where
   refs_tracked : RefsTracked f
   refs_inverse : ∀ p, p ∈ usePairs f f.flat ↔ p ∈ refPairs f f.flat
   typed : ∀ x ∈ f.flatL, TypeRule (f.ctx f.flat) x.2.2
+  operands_complete : ∀ x ∈ f.flatL, x.2.2.ops.Perm x.2.2.fops
+  func_ok : FuncOK f
 
 end Verif.C02
